@@ -11,6 +11,13 @@
 //	W <spec> <spec> ... messages written with the real Writer, then read back with the real Reader:
 //	                    <payload hex>,<payload hex>,... \t <stream hex> \t <oracle>
 //
+//	J <hex> <hex> ...   messages given in WIRE form (JSON texts, e.g. what a peer sent): each is decoded with the
+//	                    real DecodeMessage (m0), all are written with the real Writer, read back with the real
+//	                    Reader (m1).  Same output shape as W.  Oracle: m1 equals m0 field by field (reflection
+//	                    dump, raw JSON members canonicalised) and EncodeMessage(m0) is, as JSON, the known members
+//	                    of the original text (jsonrpc, id, method, params, result, error{code,message,data}).
+//	                    A text prefixed with '!' must be rejected by DecodeMessage and is not relayed.
+//
 // message spec:  c|<id>|<method hex>|<params hex>     call
 //
 //	n|<method hex>|<params hex>          notification
@@ -356,6 +363,173 @@ func sameMessage(sp *spec, got jsonrpc2.Message) string {
 	return ""
 }
 
+// canonJSON: the JSON value with sorted object keys, numbers kept as written; "" for no bytes
+func canonJSON(b []byte) string {
+	if len(b) == 0 {
+		return "-"
+	}
+	var x interface{}
+	d := json.NewDecoder(bytes.NewReader(b))
+	d.UseNumber()
+	if d.Decode(&x) != nil {
+		return "RAW:" + string(b)
+	}
+	out, err := json.Marshal(x)
+	if err != nil {
+		return "RAW:" + string(b)
+	}
+	return string(out)
+}
+
+// dump renders a message value field by field through reflection (unexported fields included: the
+// wireError behind Response.Error, the value behind ID); byte slices are JSON members and are canonicalised.
+func dump(v reflect.Value) string {
+	switch v.Kind() {
+	case reflect.Invalid:
+		return "nil"
+	case reflect.Ptr, reflect.Interface:
+		if v.IsNil() {
+			return "nil"
+		}
+		return v.Elem().Type().String() + ":" + dump(v.Elem())
+	case reflect.Struct:
+		var parts []string
+		for i := 0; i < v.NumField(); i++ {
+			parts = append(parts, v.Type().Field(i).Name+"="+dump(v.Field(i)))
+		}
+		return "{" + strings.Join(parts, " ") + "}"
+	case reflect.Slice:
+		if v.Type().Elem().Kind() == reflect.Uint8 {
+			return canonJSON(v.Bytes())
+		}
+		var parts []string
+		for i := 0; i < v.Len(); i++ {
+			parts = append(parts, dump(v.Index(i)))
+		}
+		return "[" + strings.Join(parts, ",") + "]"
+	case reflect.String:
+		return strconv.Quote(v.String())
+	case reflect.Int, reflect.Int8, reflect.Int16, reflect.Int32, reflect.Int64:
+		return strconv.FormatInt(v.Int(), 10)
+	case reflect.Float32, reflect.Float64:
+		return strconv.FormatFloat(v.Float(), 'g', -1, 64)
+	case reflect.Bool:
+		return strconv.FormatBool(v.Bool())
+	}
+	return "?" + v.Kind().String()
+}
+
+// project keeps, of a wire-form message text, the members the protocol knows, as EncodeMessage renders them
+func project(text []byte) (string, bool) {
+	var top map[string]json.RawMessage
+	if json.Unmarshal(text, &top) != nil {
+		return "", false
+	}
+	isNull := func(r json.RawMessage) bool { return strings.TrimSpace(string(r)) == "null" }
+	out := map[string]json.RawMessage{}
+	if v, ok := top["jsonrpc"]; ok {
+		out["jsonrpc"] = v
+	}
+	if v, ok := top["id"]; ok && !isNull(v) {
+		out["id"] = v
+	}
+	if v, ok := top["method"]; ok && strings.TrimSpace(string(v)) != `""` && !isNull(v) {
+		out["method"] = v
+	}
+	for _, k := range []string{"params", "result"} {
+		if v, ok := top[k]; ok {
+			out[k] = v
+		}
+	}
+	if v, ok := top["error"]; ok && !isNull(v) {
+		var eo map[string]json.RawMessage
+		if json.Unmarshal(v, &eo) != nil {
+			return "", false
+		}
+		e := map[string]json.RawMessage{"code": json.RawMessage("0"), "message": json.RawMessage(`""`)}
+		for _, k := range []string{"code", "message", "data"} {
+			if x, ok := eo[k]; ok {
+				e[k] = x
+			}
+		}
+		b, _ := json.Marshal(e)
+		out["error"] = b
+	}
+	b, err := json.Marshal(out)
+	if err != nil {
+		return "", false
+	}
+	return canonJSON(b), true
+}
+
+func doJ(args []string) (out string, oracle string) {
+	defer func() {
+		if e := recover(); e != nil {
+			out, oracle = fmt.Sprintf("PANIC:%v\t-", e), "panic"
+		}
+	}()
+	note := func(s string) {
+		if oracle == "" {
+			oracle = s
+		}
+	}
+	var firsts []jsonrpc2.Message
+	var payloads []string
+	var buf bytes.Buffer
+	w := jsonrpc2.HeaderFramer().Writer(&buf)
+	for i, a := range args {
+		mustFail := strings.HasPrefix(a, "!")
+		text := unhex(strings.TrimPrefix(a, "!"))
+		m0, err := jsonrpc2.DecodeMessage(text)
+		if mustFail {
+			if err == nil {
+				note(fmt.Sprintf("wire:%d:invalid-message-accepted", i))
+			}
+			continue
+		}
+		if err != nil || m0 == nil {
+			note(fmt.Sprintf("wire:%d:valid-message-rejected", i))
+			continue
+		}
+		data, err := jsonrpc2.EncodeMessage(m0)
+		if err != nil {
+			note(fmt.Sprintf("wire:%d:encode-error", i))
+			continue
+		}
+		if want, ok := project(text); !ok {
+			note(fmt.Sprintf("wire:%d:generator-text-not-json", i))
+		} else if got := canonJSON(data); got != want {
+			note(fmt.Sprintf("wire:%d:re-encoded-differs:%s!=%s", i, got, want))
+		}
+		payloads = append(payloads, hx(data))
+		if _, err := w.Write(context.Background(), m0); err != nil {
+			note(fmt.Sprintf("wire:%d:write-error", i))
+		}
+		firsts = append(firsts, m0)
+	}
+	stream := append([]byte(nil), buf.Bytes()...)
+	out = strings.Join(payloads, ",") + "\t" + hx(stream)
+	if len(payloads) == 0 {
+		out = "-\t" + hx(stream)
+	}
+	ob := &oneByte{data: stream}
+	r := jsonrpc2.HeaderFramer().Reader(ob)
+	for i, m0 := range firsts {
+		m1, _, err := r.Read(context.Background())
+		if err != nil {
+			note(fmt.Sprintf("relay:%d:read-error:%v", i, errClass(err, 1)))
+			return out, oracle
+		}
+		if a, b := dump(reflect.ValueOf(m0)), dump(reflect.ValueOf(m1)); a != b {
+			note(fmt.Sprintf("relay:%d:message-changed:%s!=%s", i, b, a))
+		}
+	}
+	if _, n, err := r.Read(context.Background()); err != io.EOF || n != 0 {
+		note("relay:no-clean-eof")
+	}
+	return out, oracle
+}
+
 func doW(args []string) (out string, oracle string) {
 	defer func() {
 		if e := recover(); e != nil {
@@ -440,6 +614,12 @@ func main() {
 				arg = f[1]
 			}
 			fmt.Fprintln(w, doD(arg))
+		case "J":
+			out, or := doJ(f[1:])
+			if or == "" {
+				or = "ok"
+			}
+			fmt.Fprintf(w, "%s\t%s\n", out, or)
 		case "W":
 			out, or := doW(f[1:])
 			if or == "" {
